@@ -236,16 +236,21 @@ class PlanJoinTablesQuery:
         # get conditions for tables
         binary_ops = []
 
-        def _check_node_condition(node, **kwargs):
-            if isinstance(node, BetweenOperation):
-                self.check_node_condition(node)
-
+        def _collect_binary_ops(node, **kwargs):
             if isinstance(node, BinaryOperation):
                 binary_ops.append(node.op)
 
+        query_traversal(query.where, _collect_binary_ops)
+
+        def _check_conjuncts(node):
+            # only a top-level conjunct of the condition can be used as a filter on its own
+            if isinstance(node, BinaryOperation) and node.op == 'and':
+                for arg in node.args:
+                    _check_conjuncts(arg)
+            elif isinstance(node, (BinaryOperation, BetweenOperation)):
                 self.check_node_condition(node)
 
-        query_traversal(query.where, _check_node_condition)
+        _check_conjuncts(query.where)
 
         self.query_context['binary_ops'] = binary_ops
 
